@@ -175,7 +175,13 @@ def variants_for(P, inst):
     p = inst.path
     base = None
     name = 'any'
-    if inst.is_unsafe_fn:
+    own_pairing = None
+    if inst.is_unsafe_fn and re.match(r'^memmem::searcher::prefilter_kind_\w+$', p):
+        # private dispatch target analysed as a root of its own (C11): its contract is the pairing invariant
+        # I-PRE -- it is only ever called through `Prefilter::call` with its own union field active
+        own_pairing = inst.key
+        name = 'contract(I-PRE)'
+    elif inst.is_unsafe_fn:
         name = 'contract'
         if re.search(r'^arch::all::rabinkarp::(Finder|FinderRev)::(find_raw|rfind_raw)$', p):
             base = rk_raw_contract
@@ -211,6 +217,8 @@ def variants_for(P, inst):
         return [(name, base, postf)]
     out = []
     combos = alt_combos(P, mentioned)
+    if own_pairing is not None:
+        combos = [c for c in combos if any(v[0] == own_pairing for v in c.values())]
     for c in combos:
         label = name + ':' + ','.join(f"{k.rsplit('::', 1)[1]}={v[0].rsplit('::', 1)[1]}" for k, v in sorted(c.items()))
         out.append((label, with_alts(c, base), postf))
